@@ -7,9 +7,9 @@
 long g_k; /* ghost link index */
 
 void vorbis_dsp_clear(vorbis_dsp_state *v)
-  __CPROVER_requires(FRESH(v, sizeof(*v))) __CPROVER_assigns(*v);
+  __CPROVER_requires(FRESH(v, sizeof(*v))) __CPROVER_assigns(*v) __CPROVER_ensures(1);
 int vorbis_block_clear(vorbis_block *vb)
-  __CPROVER_requires(FRESH(vb, sizeof(*vb))) __CPROVER_assigns(*vb);
+  __CPROVER_requires(FRESH(vb, sizeof(*vb))) __CPROVER_assigns(*vb) __CPROVER_ensures(1);
 
 int ov_pcm_seek(OggVorbis_File *vf, ogg_int64_t pos)
   __CPROVER_requires(FRESH(vf, sizeof(*vf)))
